@@ -1,4 +1,4 @@
 SPECIFICATION TraceSpec
-CONSTANTS NCpu = 5
+CONSTANTS NCpu = 4
           MaxStr = 4
 CHECK_DEADLOCK FALSE
